@@ -22,7 +22,7 @@ Definition a_step (a : aview) (o : op) (rot : bool) : aview :=
   end.
 
 Definition Rel (c : config) (crit : criterion) (x : sys) (a : aview) : Prop :=
-  wacts (s_w x) = 0 /\
+  s_tl x = [] /\ wacts (s_w x) = 0 /\
   match a with
   | None => s_flw x = Some (new_flw c) /\ quiet (s_w x) /\ names (wfs (s_w x)) = [] /\ inodes (wfs (s_w x)) = []
   | Some (closed, cur) =>
@@ -46,18 +46,18 @@ Lemma write_rel c crit x a b :
   numcfg c crit -> Rel c crit x a ->
   exists s w' s' rot, s_flw x = Some s /\ f_poisoned s = false /\
     write_buffer s (s_w x) b = (Ok tt, w', s', rot)
-    /\ Rel c crit {| s_flw := Some s'; s_w := w' |} (a_step a (OWrite b) rot)
+    /\ Rel c crit {| s_flw := Some s'; s_w := w'; s_tl := [] |} (a_step a (OWrite b) rot)
     /\ (forall m, crit = CSize m ->
           rot = (m <? N.of_nat (length (match a with Some (_, cu) => cu | None => [] end)))%N).
 Proof.
-  intros Hcfg [Ha R]. destruct a as [[closed cur]|].
+  intros Hcfg [Ht [Ha R]]. destruct a as [[closed cur]|].
   - destruct R as [wr [roll [Es [I [V [Z RS]]]]]].
     rewrite <- V in Z.
     destruct (write_active c crit (s_w x) wr closed roll b Hcfg I Z) as [w' [wr' [roll' [closed' [E [I' [Z' [S' [V' R']]]]]]]]].
     exists (st_of c (length closed) roll wr), w', (st_of c (length closed') roll' wr'), (rotation_necessary (s_w x) roll).
     split; [exact Es|]. split; [reflexivity|]. split; [exact E|].
     split.
-    + split; [cbn [s_w]; exact (same_env_acts _ _ S' Ha)|].
+    + split; [reflexivity|]. split; [cbn [s_w]; exact (same_env_acts _ _ S' Ha)|].
       cbn [a_step]. rewrite V in V'.
       destruct (rotation_necessary (s_w x) roll); injection V' as <- V''; (exists wr', roll'; cbn [s_flw s_w];
         split; [reflexivity|]; split; [exact I'|]; split; [exact V''|]; split; [rewrite <- V''; exact Z'|];
@@ -71,7 +71,7 @@ Proof.
     split; [exact Es|]. split; [reflexivity|].
     split. { rewrite (write_buffer_init c (s_w x) b _ _ _ w1 Ei). exact E. }
     split.
-    + split; [cbn [s_w]; exact (same_env_acts _ _ (same_env_trans _ _ _ S1 S') Ha)|].
+    + split; [reflexivity|]. split; [cbn [s_w]; exact (same_env_acts _ _ (same_env_trans _ _ _ S1 S') Ha)|].
       cbn [a_step]. rewrite V in V'. cbn [app] in V'.
       destruct (rotation_necessary w1 roll); injection V' as <- V''; (exists wr', roll'; cbn [s_flw s_w];
         split; [reflexivity|]; split; [exact I'|]; split; [exact V''|]; split; [rewrite <- V''; exact Z'|]).
@@ -95,40 +95,40 @@ Proof.
   intros Hcfg R Hb. destruct o; try contradiction; cbn [step].
   - (* OWrite *)
     destruct (write_rel c crit x a b Hcfg R) as [s [w' [s' [rot [Es [Hp [E [R' C]]]]]]]].
-    rewrite Es, Hp, E. cbn [rot_of]. split; [exact R'|]. split.
+    rewrite Es, Hp. rewrite (proj1 R). cbn [app]. rewrite E. cbn [rot_of]. split; [exact R'|]. split.
     + intros b0 m _ Hm. rewrite (C m Hm). reflexivity.
     + right. cbn [a_step]. destruct (match a with Some v => v | None => ([], []) end). eauto.
   - (* OPlain *)
     destruct (write_rel c crit x a b Hcfg R) as [s [w' [s' [rot [Es [Hp [E [R' C]]]]]]]].
-    rewrite Es, Hp, E. cbn [rot_of code_of]. split; [exact R'|]. split.
+    rewrite Es, Hp, E. cbn [rot_of code_of]. rewrite (proj1 R). split; [exact R'|]. split.
     + intros b0 m _ Hm. rewrite (C m Hm). reflexivity.
     + right. cbn [a_step]. destruct (match a with Some v => v | None => ([], []) end). eauto.
   - (* OFlush *)
-    destruct R as [Ha R]. destruct a as [[closed cur]|].
+    destruct R as [Ht [Ha R]]. destruct a as [[closed cur]|].
     + destruct R as [wr [roll [Es [I [V [Z RS]]]]]]. rewrite Es. cbn [st_of f_poisoned].
       destruct (flush_active c (s_w x) wr closed roll I) as [w' [wr' [E [I' [V' [P' S']]]]]].
       rewrite E. cbn [rot_of a_step].
       split; [|split; [intros b m [H|H]; discriminate | right; eauto]].
-      split; [exact (same_env_acts _ _ S' Ha)|]. exists wr', roll. cbn [s_flw s_w].
+      split; [exact Ht|]. split; [exact (same_env_acts _ _ S' Ha)|]. exists wr', roll. cbn [s_flw s_w].
       split; [reflexivity|]. split; [exact I'|]. split; [congruence|]. split; assumption.
     + destruct R as [Es R]. rewrite Es. cbn [new_flw f_poisoned flush_state f_inner rot_of a_step].
       split; [|split; [intros b m [H|H]; discriminate | left; reflexivity]].
-      split; [exact Ha|]. split; [reflexivity | exact R].
+      split; [exact Ht|]. split; [exact Ha|]. split; [reflexivity | exact R].
   - (* OTrigger *)
-    destruct R as [Ha R]. destruct a as [[closed cur]|].
+    destruct R as [Ht [Ha R]]. destruct a as [[closed cur]|].
     + destruct R as [wr [roll [Es [I [V [Z RS]]]]]]. rewrite Es. cbn [st_of f_poisoned f_cfg f_inner].
       destruct (mount_next_rotates c crit (s_w x) wr closed roll true Hcfg I eq_refl) as [w' [wr' [roll' [E [I' [V' [Z' [S' R']]]]]]]].
       rewrite E. cbn [rot_of a_step code_of with_inner f_cfg f_poisoned].
       split; [|split; [intros b m [H|H]; discriminate | right; eauto]].
-      split; [exact (same_env_acts _ _ S' Ha)|]. rewrite V in *. exists wr', roll'. cbn [s_flw s_w].
+      split; [exact Ht|]. split; [exact (same_env_acts _ _ S' Ha)|]. rewrite V in *. exists wr', roll'. cbn [s_flw s_w].
       split; [reflexivity|]. split; [exact I'|]. split; [exact V'|]. split; [exact Z'|].
       intros m Hm. destruct (RS m Hm) as [k ->]. destruct (R' m k eq_refl) as [k' ->]. eauto.
     + destruct R as [Es R]. rewrite Es. cbn [new_flw f_poisoned f_cfg f_inner mount_next with_inner rot_of a_step code_of].
       split; [|split; [intros b m [H|H]; discriminate | left; reflexivity]].
-      split; [exact Ha|]. split; [reflexivity | exact R].
+      split; [exact Ht|]. split; [exact Ha|]. split; [reflexivity | exact R].
   - (* OTick *)
     cbn [rot_of a_step]. split; [|split; [intros b m [H|H]; discriminate | left; reflexivity]].
-    destruct R as [Ha R]. split; [exact Ha|]. destruct a as [[closed cur]|].
+    destruct R as [Ht [Ha R]]. split; [exact Ht|]. split; [exact Ha|]. destruct a as [[closed cur]|].
     + destruct R as [wr [roll [Es [I [V [Z RS]]]]]]. exists wr, roll. cbn [s_flw s_w].
       split; [exact Es|]. split; [apply (numinv_env c (s_w x)); [exact I | reflexivity | apply I]|].
       split; [exact V|]. split; assumption.
@@ -164,9 +164,10 @@ Lemma shutdown_active c w wr closed roll : NumInv c w wr closed -> wacts w = 0 -
   exists w' wr', shutdown_state (st_of c (length closed) roll wr) w = (w', st_of c (length closed) roll wr')
     /\ NumInv c w' wr' closed /\ cur_view w' wr' = cur_view w wr /\ wpend wr' = [] /\ wacts w' = 0.
 Proof.
-  intros I Ha. unfold shutdown_state, st_of, drain_acts. cbn [f_inner f_cfg mk_rs rs_cleanup rs_naming]. rewrite Ha. cbn [run_acts].
+  intros I Ha. unfold shutdown_state, st_of, drain_acts. cbn [f_inner f_cfg mk_rs rs_cleanup rs_naming].
+  assert (Ew : set_acts w 0 = w) by (destruct w; cbn in Ha |- *; subst; reflexivity).
   assert (I0 : NumInv c (set_acts w 0) wr closed) by (apply (numinv_env c w); [exact I | reflexivity | apply I]).
-  destruct (w_flush_quiet (set_acts w 0) wr (ni_quiet _ _ _ _ I0)) as [w1 [E [F S]]]. rewrite E.
+  destruct (w_flush_quiet (set_acts w 0) wr (ni_quiet _ _ _ _ I0)) as [w1 [E [F S]]]. rewrite Ew in E. rewrite E.
   set (wr' := {| wino := wino wr; wpend := []; wcap := wcap wr |}).
   assert (Hok : wr_ok wr') by (unfold wr_ok, wr'; cbn; destruct (wcap wr); [lia | reflexivity]).
   destruct (numinv_append c (set_acts w 0) w1 wr wr' closed (wpend wr) I0 F S eq_refl eq_refl Hok) as [I1 C1].
@@ -181,7 +182,7 @@ Lemma stop_rel c crit x a : Rel c crit x a ->
   | Some (closed, cur) => reader_view c (wfs (s_w x')) closed cur
   end.
 Proof.
-  intros [Ha R]. cbn [step]. destruct a as [[closed cur]|].
+  intros [Ht [Ha R]]. cbn [step]. destruct a as [[closed cur]|].
   - destruct R as [wr [roll [Es [I [V [Z RS]]]]]]. rewrite Es. cbn [st_of f_poisoned]. unfold drop_state.
     destruct (shutdown_active c (s_w x) wr closed roll I Ha) as [w1 [wr1 [E1 [I1 [V1 [P1 A1]]]]]]. fold (st_of c (length closed) roll wr). rewrite E1.
     destruct (shutdown_active c w1 wr1 closed roll I1 A1) as [w2 [wr2 [E2 [I2 [V2 [P2 A2]]]]]]. rewrite E2.
